@@ -3,7 +3,7 @@ from ._nn import check_engines_stateless, check_encoder, check_extract, check_kd
 
 CLAIMED = True
 LEVEL = "other"
-TECHNIQUE = "interval (lower-bound) analysis of the Pool.map chunk size; ordering/dominance of the parameter-block store; writer/reader slot agreement; who-may-read / who-may-write; worker write sets; pipeline-stage order of the max_returns truncation"
+TECHNIQUE = "interval (lower-bound) analysis of the Pool.map chunk size; ordering/dominance of the parameter-block store; writer/reader slot agreement; who-may-read / who-may-write; worker write sets; pipeline-stage order of the max_returns truncation; interprocedural flow of max_returns to every cut site (sorted-by-distance obligation)"
 TEXT = ("Decides that kdtree's workers are pure functions of their task and of a parameter block that is written unconditionally before the pool exists and "
         "never afterwards, read only by the two workers and written only by _to_triplets, with writer and readers agreeing slot by slot; that results "
         "are assembled by an order-preserving primitive over enumerate(candidates) with a chunk size whose lower bound is >= 1 for every len(seqs) >= 1 "
